@@ -85,7 +85,7 @@ theorem getNode_congr {sv sv' : Server} (h : sv'.root = sv.root) (names : List B
 theorem getNode_setNode {f : Node → Node} (hf : ∀ n, (f n).name = n.name) (sv : Server) (path : List Bytes) :
     getNode (setNode sv path f) path = (getNode sv path).map f := by
   simp only [getNode, setNode_root]
-  exact nodeAt_updateAt_same hf _ _ _
+  exact ix_nodeAt_updateAt_same hf _ _ _
 
 theorem getNode_setNode_prefix {f : Node → Node} (hf : ∀ n, (f n).name = n.name) (sv : Server)
     (pre ext : List Bytes) :
